@@ -863,8 +863,13 @@ class Analysis:
             return top(w)
         if op == "sdiv":
             if b.lo > 0:
-                c = [a.lo // b.lo, a.lo // b.hi, a.hi // b.lo, a.hi // b.hi]
-                return norm(min(c) - 1, max(c) + 1, w)
+                # C division truncates towards zero; for a positive divisor it is monotone in the dividend and, for a fixed
+                # dividend, monotone in the divisor, so the four corners are exact bounds
+                def tdiv(x, y):
+                    q = abs(x) // abs(y)
+                    return q if (x >= 0) == (y >= 0) else -q
+                c = [tdiv(a.lo, b.lo), tdiv(a.lo, b.hi), tdiv(a.hi, b.lo), tdiv(a.hi, b.hi)]
+                return norm(min(c), max(c), w)
             return top(w)
         if op == "shl":
             if b.lo >= 0 and b.hi < w:
